@@ -8,7 +8,7 @@ from gen import canonical_names, basename
 ID = "C04"
 HEAP_SUMMARY = True      # end every program with the reference-level observation (BB.Model.Heap vs id() walk)
 LEAN_MODULE = "BB.Properties.C04"
-QUICK_N = 300
+QUICK_N = 600
 THOROUGH_N = 6000
 RULE = ("blueprints of whole-sample segments with 1-3 waituntil segments (also in first position), wait times leaving >= 2 "
         "samples of padding, then 0-4 changeDuration edits of preceding segments (half still fitting, half overrunning the "
